@@ -133,4 +133,39 @@ __CPROVER_ensures((__CPROVER_old(stream->len) - NV_P0 < NV_HDR) ==> (nv_thrown |
  * ("a negative / overflowing dimension never reaches the payload read with a bogus size") */
 #define NV_CONTRACT_tensor_read_dims NV_TENSOR_READ_REQUIRES NV_TENSOR_READ_ASSIGNS \
 __CPROVER_ensures(NV_ACCEPTED ==> nv_size_exact)
+
+/* ================================================================ writer: nano::write(std::ostream&, const tensor_t&) */
+#define NV_I32DIM(x) (0 <= (x) && (x) <= 2147483647LL)
+#if NV_RANK == 1
+#define NV_DIMS_I32(d) (NV_I32DIM((d)[0]))
+#elif NV_RANK == 2
+#define NV_DIMS_I32(d) (NV_I32DIM((d)[0]) && NV_I32DIM((d)[1]))
+#elif NV_RANK == 3
+#define NV_DIMS_I32(d) (NV_I32DIM((d)[0]) && NV_I32DIM((d)[1]) && NV_I32DIM((d)[2]))
+#elif NV_RANK == 4
+#define NV_DIMS_I32(d) (NV_I32DIM((d)[0]) && NV_I32DIM((d)[1]) && NV_I32DIM((d)[2]) && NV_I32DIM((d)[3]))
+#endif
+/* the value the writer must store in field g of the layout (g < 4 + rank; the last field is the content itself) */
+#define NV_FMT_VAL(g, t, cid) ((g) == 0 ? 0 : (g) == 1 ? NV_RANK : (g) < 2 + NV_RANK ? (uint64_t)(t)->m_dims.d[(g) - 2] : (g) == 2 + NV_RANK ? (uint64_t)NV_SZ \
+  : ((t)->size > 0 ? NV_HASH(cid, (t)->size) : 0))
+/* a live tensor object: dims >= 0, size() >= 0 scalars allocated at data(); the block's content has ghost identity nv_c_id.
+ * STATED PRECONDITION (DESIGN C15): every dimension fits the int32 the format stores it in (write_cast<int32_t> narrows
+ * silently; outside this range the written header is not the tensor's -- see `assumptions`). */
+#define NV_CONTRACT_tensor_write \
+__CPROVER_requires(NV_OS_OK(stream) && __CPROVER_is_fresh(tensor, sizeof(struct nv_tensor))) \
+__CPROVER_requires(NV_DIMS_I32(tensor->m_dims.d) && 0 <= tensor->size && tensor->size <= NV_MAXALLOC / NV_SZ) \
+__CPROVER_requires(tensor->size == 0 || (__CPROVER_is_fresh(tensor->data, NV_SZ * tensor->size) && nv_c_ptr == tensor->data && nv_c_n == NV_SZ * tensor->size)) \
+__CPROVER_requires(nv_nfields == 0) \
+__CPROVER_assigns(stream->pos, stream->fail, nv_gh) \
+/* 1 failure is sticky */ \
+__CPROVER_ensures(__CPROVER_old(stream->fail) ==> stream->fail) \
+/* 2 success => exactly header + content bytes were appended */ \
+__CPROVER_ensures(!stream->fail ==> stream->pos == NV_OP0 + NV_HDR + NV_SZ * tensor->size) \
+/* 3 success => the emitted field sequence is the wire layout (same macros as the reader): count, offsets, widths */ \
+__CPROVER_ensures(!stream->fail ==> (nv_nfields == NV_NFIELDS && (nv_g < NV_NFIELDS ==> (nv_f_off == NV_OP0 + NV_FMT_OFF(nv_g, tensor->size) && nv_f_w == NV_FMT_W(nv_g, tensor->size))))) \
+/* 4 ... and values: version 0, rank, each dim, sizeof(scalar), hash(content), content */ \
+__CPROVER_ensures((!stream->fail && nv_g < NV_NFIELDS - 1) ==> nv_f_val == NV_FMT_VAL(nv_g, tensor, __CPROVER_old(nv_c_id))) \
+__CPROVER_ensures((!stream->fail && nv_g == NV_NFIELDS - 1 && tensor->size > 0) ==> nv_f_cid == __CPROVER_old(nv_c_id)) \
+/* 5 the content identity is still the tensor's (nothing else was transferred) */ \
+__CPROVER_ensures(nv_c_id == __CPROVER_old(nv_c_id) && nv_c_ptr == __CPROVER_old(nv_c_ptr) && nv_c_n == __CPROVER_old(nv_c_n))
 #endif
